@@ -60,6 +60,19 @@ CHECKS = {
         design_ref="DESIGN.md 4 C02",
         note="Trusted: TLC/SANY/Json module, numpy, float32 exactness on |v|<2^24. Exhaustive only within the listed extents (<=4-5), k<=3.",
     ),
+    "C17": dict(
+        engine="tlc+trace",
+        technique="TLA+ training-loop machine (TrainLoop!MakeBatches guards) model-checked over all epoch orders; recorded ml.get_batches calls (token data carrying sample indices) and the batches of real ml.train runs validated by the TLC trace spec",
+        category="model_checking",
+        text=("MC_TrainLoop explores every duplicate-free epoch order for small (L,B) and checks the loop invariant "
+              "(disjoint batches, version arithmetic). Every recorded get_batches call -- all (L, B<=L) up to the bound, "
+              "1..3 co-batched multi-images with different type sets, with/without key, device counts dividing B -- is "
+              "validated by Trace_TrainLoop: floor(L/B) batches of exactly B, one index sequence shared by every "
+              "multi-image and every tensor type, no sample twice per epoch, identity order without key, and the device "
+              "axis a pure reshape (same order as with one device). Rejections name the violated guard."),
+        design_ref="DESIGN.md 4 C17",
+        note="Trusted: TLC/SANY/Json; one CPU device (device counts via repeated handles). (L,B) exhaustive to 8/12, keys sampled.",
+    ),
     "C19": dict(
         engine="tlc+replay+trace",
         technique="TLA+ stopping machine (operational rule vs declarative reading) model-checked over all bounded loss histories; every TLC history replayed through TrainLoss/ValLoss/EpochStop in four scalar representations; real ml.train runs recorded and validated by a TLC trace spec of the training loop",
